@@ -222,3 +222,46 @@ class RealBackend:
         if isinstance(x, (bool, np.bool_)):
             return False
         return isinstance(x, (int, float, np.floating, np.integer))
+
+
+def _sym_derivatives(B, f, arrays):
+    """d f() / d theta for every entry of every array (row-major), symbolic: chain rule over the DAG"""
+    S = B.S
+    L = f()
+    out = []
+    for arr in arrays:
+        flat = np.asarray(arr, dtype=object).reshape(-1)
+        for v in flat:
+            if isinstance(v, S.Sym) and v.op == "var":
+                out.append(S.diff(L, v, {}))
+            else:
+                out.append(None)  # a parameter held constant (e.g. the phase network's auxiliary bias)
+    return L, out
+
+
+def _num_derivatives(B, f, params, arrays, step=1e-5):
+    """central finite differences of f() with respect to every entry of the module parameters"""
+    L = f()
+    out = []
+    torch = B.torch
+    for p, arr in zip(params, arrays):
+        flat = p.data.view(-1)
+        for i in range(flat.numel()):
+            old = flat[i].item()
+            with torch.no_grad():
+                flat[i] = old + step
+            fp = f()
+            with torch.no_grad():
+                flat[i] = old - step
+            fm = f()
+            with torch.no_grad():
+                flat[i] = old
+            out.append((fp - fm) / (2 * step))
+    return L, out
+
+
+def derivatives(B, f, params, arrays):
+    """(f(), [df/dtheta_k]) in the order of `params` (module parameter tensors) / `arrays` (their scalars)"""
+    if B.symbolic:
+        return _sym_derivatives(B, f, arrays)
+    return _num_derivatives(B, f, params, arrays)
